@@ -280,15 +280,12 @@ def make_worker(prop):
             d = Driver(ex, scen)
             obs = d.run()
             out = []
-            for c, msg, kind in evaluate(prop, scen, obs, d.val):
-                m = ex.prove(c)
-                if m is not None:
-                    out.append({'scen': concretise(scen, m), 'msg': msg, 'kind': kind})
-                    if len(out) >= 2:
-                        break
+            conds = evaluate(prop, scen, obs, d.val)
+            for i, m in ex.prove_all(conds)[:2]:
+                out.append({'scen': concretise(scen, m), 'msg': conds[i][1], 'kind': conds[i][2]})
             return out
         st = explore(ex, harness)
-        return {'paths': st['paths'], 'solver_calls': st['solver_calls'], 'steps': st['steps'],
+        return {'paths': st['paths'], 'solver_calls': st['solver_calls'], 'asserts': st['asserts'], 'steps': st['steps'],
                 'infeasible': st['infeasible'], 'findings': st['findings'], 'cells': [str(cell)],
                 'cov_fns': list(ex.cov_fns), 'cov_prims': list(ex.cov_prims), 'sample': scen}
     return worker
